@@ -166,7 +166,7 @@ def run(tier, seed, replay=None):
     return run_check(
         "C06", tier, seed,
         ["UnifexModel.Props.C06", "UnifexModel.Props.C06_loop", "UnifexModel.Props.C06_loop2", "UnifexModel.Props.C06_queue",
-         "UnifexModel.Props.C06_queue2", "UnifexModel.Props.C06_pool", "UnifexModel.Props.C06_loop3", "UnifexModel.Props.C06_newthread", "UnifexModel.Props.C06_inline"],
+         "UnifexModel.Props.C06_queue2", "UnifexModel.Props.C06_pool", "UnifexModel.Props.C06_loop3", "UnifexModel.Props.C06_newthread", "UnifexModel.Props.C06_inline", "UnifexModel.Props.C06_tramp_inline"],
         parts,
         rule="every schedule (DFS preemption-bounded + random/PCT walks) of 30 scenarios (29 in the quick tier) on the REAL manual_event_loop, single_thread_context, "
              "static_thread_pool, new_thread_context and atomic_intrusive_queue under the controlled scheduler (interposed mutex/condvar/threads); "
